@@ -29,7 +29,7 @@ theorem java_eq_c_CS_FLUORSHELL_KISSEL_FULL__execute_sh0 (hk : KAllOk T Z)
   simp only [hz, hE, ↓reduceIte, zero_lit, Int.reduceEq]
   jeq_use_pos (java_eq_c_FluorYield T Z 0 hZ (by decide) s hs), (java_pos_FluorYield T Z hZ 0 (by decide))
   jeq_simp
-  jeq_use (java_eq_c_CS_Photo_Partial T Z 0 hZ (by decide) E s hs (hk.vec 0 (by decide) (by decide)).1 (hk.vec 0 (by decide) (by decide)).2.1 (hk.vec 0 (by decide) (by decide)).2.2 (Or.inl (by decide)))
+  jeq_use (java_eq_c_CS_Photo_Partial T Z 0 hZ (by decide) E s hs (hk.vec 0 (by decide) (by decide)).1 (hk.vec 0 (by decide) (by decide)).2.1 (hk.vec 0 (by decide) (by decide)).2.2)
   jeq_auto
 
 theorem java_eq_c_CS_FLUORSHELL_KISSEL_FULL__execute_sh1 (hk : KAllOk T Z)
@@ -43,7 +43,7 @@ theorem java_eq_c_CS_FLUORSHELL_KISSEL_FULL__execute_sh1 (hk : KAllOk T Z)
   simp only [hz, hE, ↓reduceIte, zero_lit]
   simp only [↓reduceIte, Int.reduceEq]
   have t0 := ht 0 (by decide) (by decide)
-  have c0 := JCatchRel.of_rel (java_eq_c_CS_Photo_Partial T Z 0 hZ (by decide) E Slot.null rfl (hk.vec 0 (by decide) (by decide)).1 (hk.vec 0 (by decide) (by decide)).2.1 (hk.vec 0 (by decide) (by decide)).2.2 (Or.inl (by decide)))
+  have c0 := JCatchRel.of_rel (java_eq_c_CS_Photo_Partial T Z 0 hZ (by decide) E Slot.null rfl (hk.vec 0 (by decide) (by decide)).1 (hk.vec 0 (by decide) (by decide)).2.1 (hk.vec 0 (by decide) (by decide)).2.2)
   obtain ⟨p0, hp0⟩ := t0.jtry_val (d := (0.0 : ℝ))
   simp only [jpure_eq_ok, zero_lit] at hp0 c0
   simp only [jpure_eq_ok, pure_eq_ok, jbind_ret, zero_lit, deq_real]
@@ -71,7 +71,7 @@ theorem java_eq_c_CS_FLUORSHELL_KISSEL_FULL__execute_sh2 (hk : KAllOk T Z)
   simp only [hz, hE, ↓reduceIte, zero_lit]
   simp only [↓reduceIte, Int.reduceEq]
   have t0 := ht 0 (by decide) (by decide)
-  have c0 := JCatchRel.of_rel (java_eq_c_CS_Photo_Partial T Z 0 hZ (by decide) E Slot.null rfl (hk.vec 0 (by decide) (by decide)).1 (hk.vec 0 (by decide) (by decide)).2.1 (hk.vec 0 (by decide) (by decide)).2.2 (Or.inl (by decide)))
+  have c0 := JCatchRel.of_rel (java_eq_c_CS_Photo_Partial T Z 0 hZ (by decide) E Slot.null rfl (hk.vec 0 (by decide) (by decide)).1 (hk.vec 0 (by decide) (by decide)).2.1 (hk.vec 0 (by decide) (by decide)).2.2)
   obtain ⟨p0, hp0⟩ := t0.jtry_val (d := (0.0 : ℝ))
   simp only [jpure_eq_ok, zero_lit] at hp0 c0
   have t1 := jtame_PL1_full_cascade_kissel T Z hZ E p0 hz (ht 1 (by decide) (by decide))
@@ -111,7 +111,7 @@ theorem java_eq_c_CS_FLUORSHELL_KISSEL_FULL__execute_sh3 (hk : KAllOk T Z)
   simp only [hz, hE, ↓reduceIte, zero_lit]
   simp only [↓reduceIte, Int.reduceEq]
   have t0 := ht 0 (by decide) (by decide)
-  have c0 := JCatchRel.of_rel (java_eq_c_CS_Photo_Partial T Z 0 hZ (by decide) E Slot.null rfl (hk.vec 0 (by decide) (by decide)).1 (hk.vec 0 (by decide) (by decide)).2.1 (hk.vec 0 (by decide) (by decide)).2.2 (Or.inl (by decide)))
+  have c0 := JCatchRel.of_rel (java_eq_c_CS_Photo_Partial T Z 0 hZ (by decide) E Slot.null rfl (hk.vec 0 (by decide) (by decide)).1 (hk.vec 0 (by decide) (by decide)).2.1 (hk.vec 0 (by decide) (by decide)).2.2)
   obtain ⟨p0, hp0⟩ := t0.jtry_val (d := (0.0 : ℝ))
   simp only [jpure_eq_ok, zero_lit] at hp0 c0
   have t1 := jtame_PL1_full_cascade_kissel T Z hZ E p0 hz (ht 1 (by decide) (by decide))
@@ -163,7 +163,7 @@ theorem java_eq_c_CS_FLUORSHELL_KISSEL_FULL__execute_sh4 (hk : KAllOk T Z)
   simp only [hz, hE, ↓reduceIte, zero_lit]
   simp only [↓reduceIte, Int.reduceEq]
   have t0 := ht 0 (by decide) (by decide)
-  have c0 := JCatchRel.of_rel (java_eq_c_CS_Photo_Partial T Z 0 hZ (by decide) E Slot.null rfl (hk.vec 0 (by decide) (by decide)).1 (hk.vec 0 (by decide) (by decide)).2.1 (hk.vec 0 (by decide) (by decide)).2.2 (Or.inl (by decide)))
+  have c0 := JCatchRel.of_rel (java_eq_c_CS_Photo_Partial T Z 0 hZ (by decide) E Slot.null rfl (hk.vec 0 (by decide) (by decide)).1 (hk.vec 0 (by decide) (by decide)).2.1 (hk.vec 0 (by decide) (by decide)).2.2)
   obtain ⟨p0, hp0⟩ := t0.jtry_val (d := (0.0 : ℝ))
   simp only [jpure_eq_ok, zero_lit] at hp0 c0
   have t1 := jtame_PL1_full_cascade_kissel T Z hZ E p0 hz (ht 1 (by decide) (by decide))
@@ -227,7 +227,7 @@ theorem java_eq_c_CS_FLUORSHELL_KISSEL_FULL__execute_sh5 (hk : KAllOk T Z)
   simp only [hz, hE, ↓reduceIte, zero_lit]
   simp only [↓reduceIte, Int.reduceEq]
   have t0 := ht 0 (by decide) (by decide)
-  have c0 := JCatchRel.of_rel (java_eq_c_CS_Photo_Partial T Z 0 hZ (by decide) E Slot.null rfl (hk.vec 0 (by decide) (by decide)).1 (hk.vec 0 (by decide) (by decide)).2.1 (hk.vec 0 (by decide) (by decide)).2.2 (Or.inl (by decide)))
+  have c0 := JCatchRel.of_rel (java_eq_c_CS_Photo_Partial T Z 0 hZ (by decide) E Slot.null rfl (hk.vec 0 (by decide) (by decide)).1 (hk.vec 0 (by decide) (by decide)).2.1 (hk.vec 0 (by decide) (by decide)).2.2)
   obtain ⟨p0, hp0⟩ := t0.jtry_val (d := (0.0 : ℝ))
   simp only [jpure_eq_ok, zero_lit] at hp0 c0
   have t1 := jtame_PL1_full_cascade_kissel T Z hZ E p0 hz (ht 1 (by decide) (by decide))
@@ -303,7 +303,7 @@ theorem java_eq_c_CS_FLUORSHELL_KISSEL_FULL__execute_sh6 (hk : KAllOk T Z)
   simp only [hz, hE, ↓reduceIte, zero_lit]
   simp only [↓reduceIte, Int.reduceEq]
   have t0 := ht 0 (by decide) (by decide)
-  have c0 := JCatchRel.of_rel (java_eq_c_CS_Photo_Partial T Z 0 hZ (by decide) E Slot.null rfl (hk.vec 0 (by decide) (by decide)).1 (hk.vec 0 (by decide) (by decide)).2.1 (hk.vec 0 (by decide) (by decide)).2.2 (Or.inl (by decide)))
+  have c0 := JCatchRel.of_rel (java_eq_c_CS_Photo_Partial T Z 0 hZ (by decide) E Slot.null rfl (hk.vec 0 (by decide) (by decide)).1 (hk.vec 0 (by decide) (by decide)).2.1 (hk.vec 0 (by decide) (by decide)).2.2)
   obtain ⟨p0, hp0⟩ := t0.jtry_val (d := (0.0 : ℝ))
   simp only [jpure_eq_ok, zero_lit] at hp0 c0
   have t1 := jtame_PL1_full_cascade_kissel T Z hZ E p0 hz (ht 1 (by decide) (by decide))
@@ -391,7 +391,7 @@ theorem java_eq_c_CS_FLUORSHELL_KISSEL_FULL__execute_sh7 (hk : KAllOk T Z)
   simp only [hz, hE, ↓reduceIte, zero_lit]
   simp only [↓reduceIte, Int.reduceEq]
   have t0 := ht 0 (by decide) (by decide)
-  have c0 := JCatchRel.of_rel (java_eq_c_CS_Photo_Partial T Z 0 hZ (by decide) E Slot.null rfl (hk.vec 0 (by decide) (by decide)).1 (hk.vec 0 (by decide) (by decide)).2.1 (hk.vec 0 (by decide) (by decide)).2.2 (Or.inl (by decide)))
+  have c0 := JCatchRel.of_rel (java_eq_c_CS_Photo_Partial T Z 0 hZ (by decide) E Slot.null rfl (hk.vec 0 (by decide) (by decide)).1 (hk.vec 0 (by decide) (by decide)).2.1 (hk.vec 0 (by decide) (by decide)).2.2)
   obtain ⟨p0, hp0⟩ := t0.jtry_val (d := (0.0 : ℝ))
   simp only [jpure_eq_ok, zero_lit] at hp0 c0
   have t1 := jtame_PL1_full_cascade_kissel T Z hZ E p0 hz (ht 1 (by decide) (by decide))
@@ -491,7 +491,7 @@ theorem java_eq_c_CS_FLUORSHELL_KISSEL_FULL__execute_sh8 (hk : KAllOk T Z)
   simp only [hz, hE, ↓reduceIte, zero_lit]
   simp only [↓reduceIte, Int.reduceEq]
   have t0 := ht 0 (by decide) (by decide)
-  have c0 := JCatchRel.of_rel (java_eq_c_CS_Photo_Partial T Z 0 hZ (by decide) E Slot.null rfl (hk.vec 0 (by decide) (by decide)).1 (hk.vec 0 (by decide) (by decide)).2.1 (hk.vec 0 (by decide) (by decide)).2.2 (Or.inl (by decide)))
+  have c0 := JCatchRel.of_rel (java_eq_c_CS_Photo_Partial T Z 0 hZ (by decide) E Slot.null rfl (hk.vec 0 (by decide) (by decide)).1 (hk.vec 0 (by decide) (by decide)).2.1 (hk.vec 0 (by decide) (by decide)).2.2)
   obtain ⟨p0, hp0⟩ := t0.jtry_val (d := (0.0 : ℝ))
   simp only [jpure_eq_ok, zero_lit] at hp0 c0
   have t1 := jtame_PL1_full_cascade_kissel T Z hZ E p0 hz (ht 1 (by decide) (by decide))
@@ -656,7 +656,7 @@ theorem java_eq_c_CS_FLUORSHELL_KISSEL_RADIATIVE__execute_sh0 (hk : KAllOk T Z)
   simp only [hz, hE, ↓reduceIte, zero_lit, Int.reduceEq]
   jeq_use_pos (java_eq_c_FluorYield T Z 0 hZ (by decide) s hs), (java_pos_FluorYield T Z hZ 0 (by decide))
   jeq_simp
-  jeq_use (java_eq_c_CS_Photo_Partial T Z 0 hZ (by decide) E s hs (hk.vec 0 (by decide) (by decide)).1 (hk.vec 0 (by decide) (by decide)).2.1 (hk.vec 0 (by decide) (by decide)).2.2 (Or.inl (by decide)))
+  jeq_use (java_eq_c_CS_Photo_Partial T Z 0 hZ (by decide) E s hs (hk.vec 0 (by decide) (by decide)).1 (hk.vec 0 (by decide) (by decide)).2.1 (hk.vec 0 (by decide) (by decide)).2.2)
   jeq_auto
 
 theorem java_eq_c_CS_FLUORSHELL_KISSEL_RADIATIVE__execute_sh1 (hk : KAllOk T Z)
@@ -670,7 +670,7 @@ theorem java_eq_c_CS_FLUORSHELL_KISSEL_RADIATIVE__execute_sh1 (hk : KAllOk T Z)
   simp only [hz, hE, ↓reduceIte, zero_lit]
   simp only [↓reduceIte, Int.reduceEq]
   have t0 := ht 0 (by decide) (by decide)
-  have c0 := JCatchRel.of_rel (java_eq_c_CS_Photo_Partial T Z 0 hZ (by decide) E Slot.null rfl (hk.vec 0 (by decide) (by decide)).1 (hk.vec 0 (by decide) (by decide)).2.1 (hk.vec 0 (by decide) (by decide)).2.2 (Or.inl (by decide)))
+  have c0 := JCatchRel.of_rel (java_eq_c_CS_Photo_Partial T Z 0 hZ (by decide) E Slot.null rfl (hk.vec 0 (by decide) (by decide)).1 (hk.vec 0 (by decide) (by decide)).2.1 (hk.vec 0 (by decide) (by decide)).2.2)
   obtain ⟨p0, hp0⟩ := t0.jtry_val (d := (0.0 : ℝ))
   simp only [jpure_eq_ok, zero_lit] at hp0 c0
   simp only [jpure_eq_ok, pure_eq_ok, jbind_ret, zero_lit, deq_real]
@@ -698,7 +698,7 @@ theorem java_eq_c_CS_FLUORSHELL_KISSEL_RADIATIVE__execute_sh2 (hk : KAllOk T Z)
   simp only [hz, hE, ↓reduceIte, zero_lit]
   simp only [↓reduceIte, Int.reduceEq]
   have t0 := ht 0 (by decide) (by decide)
-  have c0 := JCatchRel.of_rel (java_eq_c_CS_Photo_Partial T Z 0 hZ (by decide) E Slot.null rfl (hk.vec 0 (by decide) (by decide)).1 (hk.vec 0 (by decide) (by decide)).2.1 (hk.vec 0 (by decide) (by decide)).2.2 (Or.inl (by decide)))
+  have c0 := JCatchRel.of_rel (java_eq_c_CS_Photo_Partial T Z 0 hZ (by decide) E Slot.null rfl (hk.vec 0 (by decide) (by decide)).1 (hk.vec 0 (by decide) (by decide)).2.1 (hk.vec 0 (by decide) (by decide)).2.2)
   obtain ⟨p0, hp0⟩ := t0.jtry_val (d := (0.0 : ℝ))
   simp only [jpure_eq_ok, zero_lit] at hp0 c0
   have t1 := jtame_PL1_rad_cascade_kissel T Z hZ E p0 hz (ht 1 (by decide) (by decide))
@@ -738,7 +738,7 @@ theorem java_eq_c_CS_FLUORSHELL_KISSEL_RADIATIVE__execute_sh3 (hk : KAllOk T Z)
   simp only [hz, hE, ↓reduceIte, zero_lit]
   simp only [↓reduceIte, Int.reduceEq]
   have t0 := ht 0 (by decide) (by decide)
-  have c0 := JCatchRel.of_rel (java_eq_c_CS_Photo_Partial T Z 0 hZ (by decide) E Slot.null rfl (hk.vec 0 (by decide) (by decide)).1 (hk.vec 0 (by decide) (by decide)).2.1 (hk.vec 0 (by decide) (by decide)).2.2 (Or.inl (by decide)))
+  have c0 := JCatchRel.of_rel (java_eq_c_CS_Photo_Partial T Z 0 hZ (by decide) E Slot.null rfl (hk.vec 0 (by decide) (by decide)).1 (hk.vec 0 (by decide) (by decide)).2.1 (hk.vec 0 (by decide) (by decide)).2.2)
   obtain ⟨p0, hp0⟩ := t0.jtry_val (d := (0.0 : ℝ))
   simp only [jpure_eq_ok, zero_lit] at hp0 c0
   have t1 := jtame_PL1_rad_cascade_kissel T Z hZ E p0 hz (ht 1 (by decide) (by decide))
@@ -790,7 +790,7 @@ theorem java_eq_c_CS_FLUORSHELL_KISSEL_RADIATIVE__execute_sh4 (hk : KAllOk T Z)
   simp only [hz, hE, ↓reduceIte, zero_lit]
   simp only [↓reduceIte, Int.reduceEq]
   have t0 := ht 0 (by decide) (by decide)
-  have c0 := JCatchRel.of_rel (java_eq_c_CS_Photo_Partial T Z 0 hZ (by decide) E Slot.null rfl (hk.vec 0 (by decide) (by decide)).1 (hk.vec 0 (by decide) (by decide)).2.1 (hk.vec 0 (by decide) (by decide)).2.2 (Or.inl (by decide)))
+  have c0 := JCatchRel.of_rel (java_eq_c_CS_Photo_Partial T Z 0 hZ (by decide) E Slot.null rfl (hk.vec 0 (by decide) (by decide)).1 (hk.vec 0 (by decide) (by decide)).2.1 (hk.vec 0 (by decide) (by decide)).2.2)
   obtain ⟨p0, hp0⟩ := t0.jtry_val (d := (0.0 : ℝ))
   simp only [jpure_eq_ok, zero_lit] at hp0 c0
   have t1 := jtame_PL1_rad_cascade_kissel T Z hZ E p0 hz (ht 1 (by decide) (by decide))
@@ -854,7 +854,7 @@ theorem java_eq_c_CS_FLUORSHELL_KISSEL_RADIATIVE__execute_sh5 (hk : KAllOk T Z)
   simp only [hz, hE, ↓reduceIte, zero_lit]
   simp only [↓reduceIte, Int.reduceEq]
   have t0 := ht 0 (by decide) (by decide)
-  have c0 := JCatchRel.of_rel (java_eq_c_CS_Photo_Partial T Z 0 hZ (by decide) E Slot.null rfl (hk.vec 0 (by decide) (by decide)).1 (hk.vec 0 (by decide) (by decide)).2.1 (hk.vec 0 (by decide) (by decide)).2.2 (Or.inl (by decide)))
+  have c0 := JCatchRel.of_rel (java_eq_c_CS_Photo_Partial T Z 0 hZ (by decide) E Slot.null rfl (hk.vec 0 (by decide) (by decide)).1 (hk.vec 0 (by decide) (by decide)).2.1 (hk.vec 0 (by decide) (by decide)).2.2)
   obtain ⟨p0, hp0⟩ := t0.jtry_val (d := (0.0 : ℝ))
   simp only [jpure_eq_ok, zero_lit] at hp0 c0
   have t1 := jtame_PL1_rad_cascade_kissel T Z hZ E p0 hz (ht 1 (by decide) (by decide))
@@ -930,7 +930,7 @@ theorem java_eq_c_CS_FLUORSHELL_KISSEL_RADIATIVE__execute_sh6 (hk : KAllOk T Z)
   simp only [hz, hE, ↓reduceIte, zero_lit]
   simp only [↓reduceIte, Int.reduceEq]
   have t0 := ht 0 (by decide) (by decide)
-  have c0 := JCatchRel.of_rel (java_eq_c_CS_Photo_Partial T Z 0 hZ (by decide) E Slot.null rfl (hk.vec 0 (by decide) (by decide)).1 (hk.vec 0 (by decide) (by decide)).2.1 (hk.vec 0 (by decide) (by decide)).2.2 (Or.inl (by decide)))
+  have c0 := JCatchRel.of_rel (java_eq_c_CS_Photo_Partial T Z 0 hZ (by decide) E Slot.null rfl (hk.vec 0 (by decide) (by decide)).1 (hk.vec 0 (by decide) (by decide)).2.1 (hk.vec 0 (by decide) (by decide)).2.2)
   obtain ⟨p0, hp0⟩ := t0.jtry_val (d := (0.0 : ℝ))
   simp only [jpure_eq_ok, zero_lit] at hp0 c0
   have t1 := jtame_PL1_rad_cascade_kissel T Z hZ E p0 hz (ht 1 (by decide) (by decide))
@@ -1018,7 +1018,7 @@ theorem java_eq_c_CS_FLUORSHELL_KISSEL_RADIATIVE__execute_sh7 (hk : KAllOk T Z)
   simp only [hz, hE, ↓reduceIte, zero_lit]
   simp only [↓reduceIte, Int.reduceEq]
   have t0 := ht 0 (by decide) (by decide)
-  have c0 := JCatchRel.of_rel (java_eq_c_CS_Photo_Partial T Z 0 hZ (by decide) E Slot.null rfl (hk.vec 0 (by decide) (by decide)).1 (hk.vec 0 (by decide) (by decide)).2.1 (hk.vec 0 (by decide) (by decide)).2.2 (Or.inl (by decide)))
+  have c0 := JCatchRel.of_rel (java_eq_c_CS_Photo_Partial T Z 0 hZ (by decide) E Slot.null rfl (hk.vec 0 (by decide) (by decide)).1 (hk.vec 0 (by decide) (by decide)).2.1 (hk.vec 0 (by decide) (by decide)).2.2)
   obtain ⟨p0, hp0⟩ := t0.jtry_val (d := (0.0 : ℝ))
   simp only [jpure_eq_ok, zero_lit] at hp0 c0
   have t1 := jtame_PL1_rad_cascade_kissel T Z hZ E p0 hz (ht 1 (by decide) (by decide))
@@ -1118,7 +1118,7 @@ theorem java_eq_c_CS_FLUORSHELL_KISSEL_RADIATIVE__execute_sh8 (hk : KAllOk T Z)
   simp only [hz, hE, ↓reduceIte, zero_lit]
   simp only [↓reduceIte, Int.reduceEq]
   have t0 := ht 0 (by decide) (by decide)
-  have c0 := JCatchRel.of_rel (java_eq_c_CS_Photo_Partial T Z 0 hZ (by decide) E Slot.null rfl (hk.vec 0 (by decide) (by decide)).1 (hk.vec 0 (by decide) (by decide)).2.1 (hk.vec 0 (by decide) (by decide)).2.2 (Or.inl (by decide)))
+  have c0 := JCatchRel.of_rel (java_eq_c_CS_Photo_Partial T Z 0 hZ (by decide) E Slot.null rfl (hk.vec 0 (by decide) (by decide)).1 (hk.vec 0 (by decide) (by decide)).2.1 (hk.vec 0 (by decide) (by decide)).2.2)
   obtain ⟨p0, hp0⟩ := t0.jtry_val (d := (0.0 : ℝ))
   simp only [jpure_eq_ok, zero_lit] at hp0 c0
   have t1 := jtame_PL1_rad_cascade_kissel T Z hZ E p0 hz (ht 1 (by decide) (by decide))
@@ -1283,7 +1283,7 @@ theorem java_eq_c_CS_FLUORSHELL_KISSEL_NONRADIATIVE__execute_sh0 (hk : KAllOk T 
   simp only [hz, hE, ↓reduceIte, zero_lit, Int.reduceEq]
   jeq_use_pos (java_eq_c_FluorYield T Z 0 hZ (by decide) s hs), (java_pos_FluorYield T Z hZ 0 (by decide))
   jeq_simp
-  jeq_use (java_eq_c_CS_Photo_Partial T Z 0 hZ (by decide) E s hs (hk.vec 0 (by decide) (by decide)).1 (hk.vec 0 (by decide) (by decide)).2.1 (hk.vec 0 (by decide) (by decide)).2.2 (Or.inl (by decide)))
+  jeq_use (java_eq_c_CS_Photo_Partial T Z 0 hZ (by decide) E s hs (hk.vec 0 (by decide) (by decide)).1 (hk.vec 0 (by decide) (by decide)).2.1 (hk.vec 0 (by decide) (by decide)).2.2)
   jeq_auto
 
 theorem java_eq_c_CS_FLUORSHELL_KISSEL_NONRADIATIVE__execute_sh1 (hk : KAllOk T Z)
@@ -1297,7 +1297,7 @@ theorem java_eq_c_CS_FLUORSHELL_KISSEL_NONRADIATIVE__execute_sh1 (hk : KAllOk T 
   simp only [hz, hE, ↓reduceIte, zero_lit]
   simp only [↓reduceIte, Int.reduceEq]
   have t0 := ht 0 (by decide) (by decide)
-  have c0 := JCatchRel.of_rel (java_eq_c_CS_Photo_Partial T Z 0 hZ (by decide) E Slot.null rfl (hk.vec 0 (by decide) (by decide)).1 (hk.vec 0 (by decide) (by decide)).2.1 (hk.vec 0 (by decide) (by decide)).2.2 (Or.inl (by decide)))
+  have c0 := JCatchRel.of_rel (java_eq_c_CS_Photo_Partial T Z 0 hZ (by decide) E Slot.null rfl (hk.vec 0 (by decide) (by decide)).1 (hk.vec 0 (by decide) (by decide)).2.1 (hk.vec 0 (by decide) (by decide)).2.2)
   obtain ⟨p0, hp0⟩ := t0.jtry_val (d := (0.0 : ℝ))
   simp only [jpure_eq_ok, zero_lit] at hp0 c0
   simp only [jpure_eq_ok, pure_eq_ok, jbind_ret, zero_lit, deq_real]
@@ -1325,7 +1325,7 @@ theorem java_eq_c_CS_FLUORSHELL_KISSEL_NONRADIATIVE__execute_sh2 (hk : KAllOk T 
   simp only [hz, hE, ↓reduceIte, zero_lit]
   simp only [↓reduceIte, Int.reduceEq]
   have t0 := ht 0 (by decide) (by decide)
-  have c0 := JCatchRel.of_rel (java_eq_c_CS_Photo_Partial T Z 0 hZ (by decide) E Slot.null rfl (hk.vec 0 (by decide) (by decide)).1 (hk.vec 0 (by decide) (by decide)).2.1 (hk.vec 0 (by decide) (by decide)).2.2 (Or.inl (by decide)))
+  have c0 := JCatchRel.of_rel (java_eq_c_CS_Photo_Partial T Z 0 hZ (by decide) E Slot.null rfl (hk.vec 0 (by decide) (by decide)).1 (hk.vec 0 (by decide) (by decide)).2.1 (hk.vec 0 (by decide) (by decide)).2.2)
   obtain ⟨p0, hp0⟩ := t0.jtry_val (d := (0.0 : ℝ))
   simp only [jpure_eq_ok, zero_lit] at hp0 c0
   have t1 := jtame_PL1_auger_cascade_kissel T Z hZ E p0 hz (ht 1 (by decide) (by decide))
@@ -1365,7 +1365,7 @@ theorem java_eq_c_CS_FLUORSHELL_KISSEL_NONRADIATIVE__execute_sh3 (hk : KAllOk T 
   simp only [hz, hE, ↓reduceIte, zero_lit]
   simp only [↓reduceIte, Int.reduceEq]
   have t0 := ht 0 (by decide) (by decide)
-  have c0 := JCatchRel.of_rel (java_eq_c_CS_Photo_Partial T Z 0 hZ (by decide) E Slot.null rfl (hk.vec 0 (by decide) (by decide)).1 (hk.vec 0 (by decide) (by decide)).2.1 (hk.vec 0 (by decide) (by decide)).2.2 (Or.inl (by decide)))
+  have c0 := JCatchRel.of_rel (java_eq_c_CS_Photo_Partial T Z 0 hZ (by decide) E Slot.null rfl (hk.vec 0 (by decide) (by decide)).1 (hk.vec 0 (by decide) (by decide)).2.1 (hk.vec 0 (by decide) (by decide)).2.2)
   obtain ⟨p0, hp0⟩ := t0.jtry_val (d := (0.0 : ℝ))
   simp only [jpure_eq_ok, zero_lit] at hp0 c0
   have t1 := jtame_PL1_auger_cascade_kissel T Z hZ E p0 hz (ht 1 (by decide) (by decide))
@@ -1417,7 +1417,7 @@ theorem java_eq_c_CS_FLUORSHELL_KISSEL_NONRADIATIVE__execute_sh4 (hk : KAllOk T 
   simp only [hz, hE, ↓reduceIte, zero_lit]
   simp only [↓reduceIte, Int.reduceEq]
   have t0 := ht 0 (by decide) (by decide)
-  have c0 := JCatchRel.of_rel (java_eq_c_CS_Photo_Partial T Z 0 hZ (by decide) E Slot.null rfl (hk.vec 0 (by decide) (by decide)).1 (hk.vec 0 (by decide) (by decide)).2.1 (hk.vec 0 (by decide) (by decide)).2.2 (Or.inl (by decide)))
+  have c0 := JCatchRel.of_rel (java_eq_c_CS_Photo_Partial T Z 0 hZ (by decide) E Slot.null rfl (hk.vec 0 (by decide) (by decide)).1 (hk.vec 0 (by decide) (by decide)).2.1 (hk.vec 0 (by decide) (by decide)).2.2)
   obtain ⟨p0, hp0⟩ := t0.jtry_val (d := (0.0 : ℝ))
   simp only [jpure_eq_ok, zero_lit] at hp0 c0
   have t1 := jtame_PL1_auger_cascade_kissel T Z hZ E p0 hz (ht 1 (by decide) (by decide))
@@ -1481,7 +1481,7 @@ theorem java_eq_c_CS_FLUORSHELL_KISSEL_NONRADIATIVE__execute_sh5 (hk : KAllOk T 
   simp only [hz, hE, ↓reduceIte, zero_lit]
   simp only [↓reduceIte, Int.reduceEq]
   have t0 := ht 0 (by decide) (by decide)
-  have c0 := JCatchRel.of_rel (java_eq_c_CS_Photo_Partial T Z 0 hZ (by decide) E Slot.null rfl (hk.vec 0 (by decide) (by decide)).1 (hk.vec 0 (by decide) (by decide)).2.1 (hk.vec 0 (by decide) (by decide)).2.2 (Or.inl (by decide)))
+  have c0 := JCatchRel.of_rel (java_eq_c_CS_Photo_Partial T Z 0 hZ (by decide) E Slot.null rfl (hk.vec 0 (by decide) (by decide)).1 (hk.vec 0 (by decide) (by decide)).2.1 (hk.vec 0 (by decide) (by decide)).2.2)
   obtain ⟨p0, hp0⟩ := t0.jtry_val (d := (0.0 : ℝ))
   simp only [jpure_eq_ok, zero_lit] at hp0 c0
   have t1 := jtame_PL1_auger_cascade_kissel T Z hZ E p0 hz (ht 1 (by decide) (by decide))
@@ -1557,7 +1557,7 @@ theorem java_eq_c_CS_FLUORSHELL_KISSEL_NONRADIATIVE__execute_sh6 (hk : KAllOk T 
   simp only [hz, hE, ↓reduceIte, zero_lit]
   simp only [↓reduceIte, Int.reduceEq]
   have t0 := ht 0 (by decide) (by decide)
-  have c0 := JCatchRel.of_rel (java_eq_c_CS_Photo_Partial T Z 0 hZ (by decide) E Slot.null rfl (hk.vec 0 (by decide) (by decide)).1 (hk.vec 0 (by decide) (by decide)).2.1 (hk.vec 0 (by decide) (by decide)).2.2 (Or.inl (by decide)))
+  have c0 := JCatchRel.of_rel (java_eq_c_CS_Photo_Partial T Z 0 hZ (by decide) E Slot.null rfl (hk.vec 0 (by decide) (by decide)).1 (hk.vec 0 (by decide) (by decide)).2.1 (hk.vec 0 (by decide) (by decide)).2.2)
   obtain ⟨p0, hp0⟩ := t0.jtry_val (d := (0.0 : ℝ))
   simp only [jpure_eq_ok, zero_lit] at hp0 c0
   have t1 := jtame_PL1_auger_cascade_kissel T Z hZ E p0 hz (ht 1 (by decide) (by decide))
@@ -1645,7 +1645,7 @@ theorem java_eq_c_CS_FLUORSHELL_KISSEL_NONRADIATIVE__execute_sh7 (hk : KAllOk T 
   simp only [hz, hE, ↓reduceIte, zero_lit]
   simp only [↓reduceIte, Int.reduceEq]
   have t0 := ht 0 (by decide) (by decide)
-  have c0 := JCatchRel.of_rel (java_eq_c_CS_Photo_Partial T Z 0 hZ (by decide) E Slot.null rfl (hk.vec 0 (by decide) (by decide)).1 (hk.vec 0 (by decide) (by decide)).2.1 (hk.vec 0 (by decide) (by decide)).2.2 (Or.inl (by decide)))
+  have c0 := JCatchRel.of_rel (java_eq_c_CS_Photo_Partial T Z 0 hZ (by decide) E Slot.null rfl (hk.vec 0 (by decide) (by decide)).1 (hk.vec 0 (by decide) (by decide)).2.1 (hk.vec 0 (by decide) (by decide)).2.2)
   obtain ⟨p0, hp0⟩ := t0.jtry_val (d := (0.0 : ℝ))
   simp only [jpure_eq_ok, zero_lit] at hp0 c0
   have t1 := jtame_PL1_auger_cascade_kissel T Z hZ E p0 hz (ht 1 (by decide) (by decide))
@@ -1745,7 +1745,7 @@ theorem java_eq_c_CS_FLUORSHELL_KISSEL_NONRADIATIVE__execute_sh8 (hk : KAllOk T 
   simp only [hz, hE, ↓reduceIte, zero_lit]
   simp only [↓reduceIte, Int.reduceEq]
   have t0 := ht 0 (by decide) (by decide)
-  have c0 := JCatchRel.of_rel (java_eq_c_CS_Photo_Partial T Z 0 hZ (by decide) E Slot.null rfl (hk.vec 0 (by decide) (by decide)).1 (hk.vec 0 (by decide) (by decide)).2.1 (hk.vec 0 (by decide) (by decide)).2.2 (Or.inl (by decide)))
+  have c0 := JCatchRel.of_rel (java_eq_c_CS_Photo_Partial T Z 0 hZ (by decide) E Slot.null rfl (hk.vec 0 (by decide) (by decide)).1 (hk.vec 0 (by decide) (by decide)).2.1 (hk.vec 0 (by decide) (by decide)).2.2)
   obtain ⟨p0, hp0⟩ := t0.jtry_val (d := (0.0 : ℝ))
   simp only [jpure_eq_ok, zero_lit] at hp0 c0
   have t1 := jtame_PL1_auger_cascade_kissel T Z hZ E p0 hz (ht 1 (by decide) (by decide))
